@@ -176,6 +176,31 @@ fn structured_count() -> u64 {
 
 pub fn run(o: &Opts) -> i32 {
     let mut streams: Vec<Stream> = Vec::new();
+    // the most hostile texts first (one case), so that clamped interpreter runs always see them
+    streams.push(Stream::new("hostile-texts", 1, |_i, _rng: &mut Rng, l: &mut Local| {
+        let a = |n: usize| "A".repeat(n);
+        let texts: Vec<String> = vec![
+            format!("3:abc:{}", a(32)),
+            format!("3:abc:{}", a(33)),
+            format!("3:abc:{}", a(35)),
+            format!("3:abc:{}", a(36)),
+            format!("3:abc:{}", a(64)),
+            format!("3:abc:{}", a(65)),
+            format!("3:abc:{}", a(68)),
+            format!("3:abc:{}", a(200)),
+            format!("3:{}:x", a(64)),
+            format!("3:{}:x", a(65)),
+            format!("3:{}:x", a(67)),
+            format!("3:{}:x", a(68)),
+            format!("3:{}:x", a(300)),
+            format!("3:{}B{}:{}C{}", a(40), a(40), a(20), a(20)),
+            format!("3221225472:{}:{}", "AAAB".repeat(16), "CCCD".repeat(8)),
+            format!("3:{}:{},tail", "ABCD".repeat(16), "ABCD".repeat(8)),
+        ];
+        for t in texts {
+            check_text(l, t.as_bytes());
+        }
+    }));
     streams.push(Stream::new("structured-runs", structured_count(), |i, _rng: &mut Rng, l: &mut Local| {
         if let Some(t) = structured(i) {
             check_text(l, &t);
